@@ -388,6 +388,18 @@ func main() {
 						r.cl = cl
 						r.rootName = srv.rootPath
 					}
+				} else if via == "clienthc" {
+					r.rootName = "/bs"
+					if useRoot {
+						r.rootName = srv.rootPath
+					}
+					c, err := client.New(client.OptionServer(srv.url+r.rootName), client.OptionAuthMode(auth.NewBasicAuth("u", "p")), client.OptionNoExternalConfig())
+					if err != nil {
+						fatal(err)
+					}
+					r.hc = &memHaveCache{m: map[blob.Ref]uint32{}}
+					c.SetHaveCache(r.hc)
+					r.cl = c
 				} else {
 					r.rootName = "/bs"
 					if useRoot {
